@@ -259,7 +259,7 @@ def build():
                        dtype=OpaqueOf("dtype", hasobject=False, itemsize=OneOf(0, 1, 2, 4, 8, 16)), allow_mmap=BOOL, subclass=OpaqueOf("cls"))
     unp = lambda **kw: OpaqueOf("unpicklerobj", file_handle=OpaqueOf("fh", name=STR), np=OpaqueOf("np"), **kw)
     p.add(Contract(
-        NP, "NumpyArrayWrapper.read_array", props=["C19"], ghost=dict(POS=INT, COUNT=INT, PADBYTE=INT), setup=rsetup, globals=rglob,
+        NP, "NumpyArrayWrapper.read_array", props=["C19", "C14"], ghost=dict(POS=INT, COUNT=INT, PADBYTE=INT), setup=rsetup, globals=rglob,
         inline={"safe_get_numpy_array_alignment_bytes"},
         params=dict(self=RD(), unpickler=unp(), ensure_native_byte_order=BOOL),
         requires=["implies(self.shape.ndim == 0, COUNT == 1)"],
@@ -280,6 +280,11 @@ def build():
             havoc=["ghost:POS"],
         )},
     ))
+    # C14 reads this contract for termination and exact consumption only (every loop of the array reader is a bounded `for`, each step
+    # consumes through _read_bytes, which returns exactly the bytes asked for or raises at EOF); the dtype clauses are C19's
+    for _k in [k for k in p.contracts if k[1] == "NumpyArrayWrapper.read_array"]:
+        p.contracts[_k].clause_props = {"dtype_and_element_bytes_come_back_unchanged": ["C19"], "dtype_and_element_bytes_unchanged_outside_K7": ["C19"],
+                                        "fortran_order_is_transposed_back": ["C19"], "no_bytes_are_decoded_for_item_size_zero": ["C19"]}
     p.spec_funcs["minimum"] = lambda i, a, b: Sym(INT, z3.If(ops.as_int_term(a) <= ops.as_int_term(b), ops.as_int_term(a), ops.as_int_term(b)))
 
     def for_sequence2(interp, it, node):
@@ -366,7 +371,7 @@ def build():
         return Opaque("wrapper", None)
 
     p.models["new:NumpyArrayWrapper"] = new_wrapper
-    p.models["builtin:type"] = lambda i, a, k: Opaque("cls", None)
+    p.models["builtin:type"] = lambda i, a, k: a[0].attrs["cls"] if isinstance(a[0], Opaque) and "cls" in a[0].attrs else Opaque("cls", None)
     p.add(Contract(
         NP, "NumpyPickler._create_array_wrapper", props=["C19"], ghost=dict(POS=INT),
         params=dict(self=ObjOf("NumpyPickler", buffered=BOOL, file_handle=lambda i: Opaque("fh", None, tell_unsupported=OneOf(False, True).fresh(i.ctx, "notell"))),
@@ -379,6 +384,50 @@ def build():
         },
         ensures={},
     ))
+    # ---- NumpyPickler.save: which objects are stored as (wrapper, raw bytes) and which keep their own pickle protocol.
+    # The wrapper records (class, shape, order, dtype) and the element bytes - the whole state of an exact ndarray, np.matrix or (converted)
+    # np.memmap.  Any OTHER ndarray subclass (np.ma.MaskedArray: mask and fill value; user subclasses with attributes) has state the wrapper
+    # cannot hold, so "come back identical, whatever the subclass" requires handing it to the pickle machinery untouched.
+    CLS = {n: Opaque("npclass", n, classname=n) for n in ("ndarray", "matrix", "memmap")}
+    CLS_OTHER, CLS_PLAIN = Opaque("npclass", "MaskedArray", classname="MaskedArray"), Opaque("pyclass", "object", classname="object")
+
+    def saved_object(interp):
+        k = interp.ctx.choose(5, "object-kind")
+        kinds = [("exact-ndarray", CLS["ndarray"], ("ndarray",)), ("exact-matrix", CLS["matrix"], ("ndarray", "matrix")),
+                 ("exact-memmap", CLS["memmap"], ("ndarray", "memmap")), ("other-ndarray-subclass", CLS_OTHER, ("ndarray", "MaskedArray")),
+                 ("not-an-array", CLS_PLAIN, ("object",))]
+        name, cls, isa = kinds[k]
+        o = Opaque("savedobj", name, cls=cls, isinstance=isa, kindname=name)
+        interp.ctx.ghost["OBJ"] = o
+        return o
+
+    def np_module(interp):
+        if interp.ctx.choose(2, "numpy-available") == 0:
+            return None
+        return Opaque("npmod", None, ndarray=CLS["ndarray"], matrix=CLS["matrix"], memmap=CLS["memmap"])
+
+    p.models["npmod.asanyarray"] = lambda i, r, a, k: a[0]   # a memmap stays the same object (subclasses pass through asanyarray)
+    p.models["framer.commit_frame"] = lambda i, r, a, k: i.ctx.events.append(("commit_frame", k.get("force")))
+    p.models["savewrapper.write_array"] = lambda i, r, a, k: i.ctx.events.append(("write_array", a[0]))
+    sglob = {"Pickler": lambda interp: Opaque("picklercls", None, save=_Fn(lambda i, a, k: i.ctx.events.append(("Pickler.save", a[1]))))}
+    p.spec_funcs["kind_is"] = lambda interp, *names: interp.ctx.ghost["OBJ"].attrs["kindname"] in names
+    p.spec_funcs["is_tag"] = lambda interp, o, tag: isinstance(o, Opaque) and o.tag == tag
+    p.add(Contract(
+        NP, "NumpyPickler.save", props=["C19", "C03"], globals=sglob,
+        params=dict(self=ObjOf("NumpyPickler", np=np_module, proto=OneOf(2, 3, 4, 5), framer=OpaqueOf("framer")), obj=saved_object),
+        calls={"self._create_array_wrapper": lambda interp, args, kwargs: (interp.ctx.events.append(("create_wrapper", args[0])), Opaque("savewrapper", None))[1]},
+        ensures={},
+        ensures_body={
+            "only_classes_whose_whole_state_is_dtype_shape_and_bytes_go_through_the_wrapper":
+                "(n_events('create_wrapper') == 1) == (self.np is not None and kind_is('exact-ndarray', 'exact-matrix', 'exact-memmap'))",
+            "everything_else_keeps_its_own_pickle_protocol":
+                "implies(n_events('create_wrapper') == 0, n_events('Pickler.save') == 1 and ev_named('Pickler.save')[0][1] is obj and n_events('write_array') == 0)",
+            "wrapper_then_frame_boundary_then_bytes":
+                "implies(n_events('create_wrapper') == 1, n_events('Pickler.save') == 1 and is_tag(ev_named('Pickler.save')[0][1], 'savewrapper') and n_events('write_array') == 1 "
+                "and ev_named('write_array')[0][1] is obj and n_events('commit_frame') == (1 if self.proto >= 4 else 0))",
+        },
+    ))
+
     # ---- byte-order conversion on load (numpy_pickle_utils): _ensure_native_byte_order byteswaps EVERY field and relabels the dtype as
     # native, which preserves the values only if no field is of native order.  Shape-bounded: structured dtypes with two fields
     # (symbolic byte orders), plain dtypes with any byte order.
